@@ -622,9 +622,9 @@ pub fn sets(ctx: &Ctx) -> Vec<CaseSet> {
     let (tb2, cfg2) = (tb.clone(), cfg.clone());
     let (tb3, cfg3) = (tb.clone(), cfg.clone());
     vec![
-        CaseSet::new("lists", ctx.size(6_000, 150_000), Box::new(move |rep, rng, _| case_list(rep, rng, &cfg1, &tb1, max_len))),
-        CaseSet::new("parsed-lists", ctx.size(2_000, 40_000), Box::new(move |rep, rng, _| case_parsed(rep, rng, max_len))),
-        CaseSet::new("alists", ctx.size(24_000, 1_000_000), Box::new(move |rep, rng, _| case_alist(rep, rng, &cfg2, &tb2))),
-        CaseSet::new("any-value-index", ctx.size(40_000, 1_500_000), Box::new(move |rep, rng, _| case_nonlist(rep, rng, &cfg3, &tb3))),
+        CaseSet::new("lists", ctx.size(24_000, 150_000), Box::new(move |rep, rng, _| case_list(rep, rng, &cfg1, &tb1, max_len))),
+        CaseSet::new("parsed-lists", ctx.size(8_000, 40_000), Box::new(move |rep, rng, _| case_parsed(rep, rng, max_len))),
+        CaseSet::new("alists", ctx.size(120_000, 1_000_000), Box::new(move |rep, rng, _| case_alist(rep, rng, &cfg2, &tb2))),
+        CaseSet::new("any-value-index", ctx.size(160_000, 1_500_000), Box::new(move |rep, rng, _| case_nonlist(rep, rng, &cfg3, &tb3))),
     ]
 }
